@@ -58,9 +58,11 @@ class MolGraph:
             self._neighbors = deepcopy(mol_graph._neighbors)
             self._bond_attrs = deepcopy(mol_graph._bond_attrs)
         else:
-            self._atom_attrs = defaultdict(dict)
+            # plain dicts: looking up an atom or bond that is not in the
+            # graph has to raise KeyError instead of creating it
+            self._atom_attrs = {}
             self._neighbors = defaultdict(set)
-            self._bond_attrs = defaultdict(dict)
+            self._bond_attrs = {}
 
     @property
     def atoms(
@@ -481,9 +483,9 @@ class MolGraph:
         elif copy is False:
             new_graph = self
 
-        new_graph._atom_attrs = defaultdict(dict, atom_attrs)
+        new_graph._atom_attrs = atom_attrs
         new_graph._neighbors = defaultdict(set, neighbors)
-        new_graph._bond_attrs = defaultdict(dict, bond_attrs)
+        new_graph._bond_attrs = bond_attrs
         return new_graph
 
     def node_connected_component(self, atom: int) -> set[AtomId]:
